@@ -138,7 +138,7 @@ def check(case, results):
                 v.append(dict(oracle="C04.initial-state",
                               detail="rendering '%s': RDSystem.state entry (species %d, cell %d) is %r molecules, the physical "
                                      "description says %r" % (phys["style"], d[0], d[1], st[d[0], d[1]], m.x0[d[0], d[1]])))
-            if list(si_ev["chem"]) != [int(c) for c in m.chem.ravel()]:
+            if [int(bool(c)) for c in si_ev["chem"]] != [int(c) for c in m.chem.ravel()]:
                 v.append(dict(oracle="C04.chemostat-map", detail="rendering '%s': chemostat map differs" % phys["style"]))
             stats["state_comparisons"] = stats.get("state_comparisons", 0) + 1
         h = traj.extract(case, 0, ei, res, m.ns, m.nc)
